@@ -69,7 +69,7 @@ pub fn kinds() -> &'static [ErrorKind] {
 pub const ONE_SHOT_KINDS: &[ErrorKind] = &[ErrorKind::Interrupted, ErrorKind::WouldBlock, ErrorKind::TimedOut, ErrorKind::Interrupted, ErrorKind::ConnectionReset, ErrorKind::Other, ErrorKind::UnexpectedEof];
 
 pub const SHAPE_LABELS: [&str; sio::ERR_SHAPES as usize] =
-    ["error-shape:message", "error-shape:bare-kind", "error-shape:nested-io-error", "error-shape:source-chain", "error-shape:os-code", "error-shape:boxed-or-empty", "error-shape:codec-error-payload", "error-shape:codec-v5-error-payload"];
+    ["error-shape:message", "error-shape:bare-kind", "error-shape:nested-io-error", "error-shape:source-chain", "error-shape:os-code", "error-shape:boxed-or-empty", "error-shape:codec-error-payload", "error-shape:codec-v5-error-payload", "error-shape:nested-os-error-of-another-kind", "error-shape:message-quoting-an-os-error"];
 
 fn io_kind<F: Family>(e: &F::Error) -> Option<ErrorKind> {
     match F::common(e) {
